@@ -278,7 +278,7 @@ func c08Trailing(c *eng.Ctx, r *eng.Report) {
 }
 
 var rlpPanics = map[string]string{
-	"storage/rlp.decodeRawValue": "none expected",
+	"storage/rlp.decodeRawValue":   "none expected",
 	"(*storage/rlp.Stream).Decode": "programmer error: non-pointer / nil destination",
 	"storage/rlp.cachedTypeInfo1":  "none expected",
 	"storage/rlp.makeDecoder":      "none expected",
